@@ -55,7 +55,7 @@ ROOT = os.path.dirname(os.path.dirname(os.path.abspath(__file__)))
 def known_ids():
     """Finding ids listed as status 'known' for C18 in KNOWN_FINDINGS.json (read-only lookup)."""
     try:
-        kf = json.load(open(os.path.join(ROOT, "KNOWN_FINDINGS.json")))
+        kf = json.load(open(os.environ.get("CKT_KNOWN_FINDINGS") or os.path.join(ROOT, "KNOWN_FINDINGS.json")))
     except Exception:  # noqa: BLE001
         return set()
     return {e.get("id") for e in kf.get("findings", []) if e.get("property") == "C18" and e.get("status") == "known"}
@@ -65,17 +65,22 @@ def known_ids():
 # deep snapshots of arguments
 # --------------------------------------------------------------------------------------
 
+def canon_maps(basis, ctx):
+    return [[[ctx.bop(o) for o in half] for half in m] for m in basis.maps]
+
+
 def snap(x, ctx):
     if isinstance(x, QuantumCircuit):
         data = ctx.canon_circuit(x)
-        return ["qc", circuit_registers(x), data,
-                [[repr(complex(c)) for c in b.coeffs] for b in ctx.bases], ctx.canon_benv(), repr(x.global_phase)]
+        bases = [[canon_maps(i.operation.basis, ctx), [repr(complex(c)) for c in i.operation.basis.coeffs]]
+                 if isinstance(i.operation, BaseQPDGate) else None for i in x.data]
+        return ["qc", circuit_registers(x), data, bases, repr(x.global_phase)]
     if isinstance(x, PauliList):
         return ["pl", [str(p) for p in x]]
     if isinstance(x, Pauli):
         return ["p", str(x)]
     if isinstance(x, QPDBasis):
-        return ["basis", ctx.canon_basis(x), [repr(complex(c)) for c in x.coeffs]]
+        return ["basis", canon_maps(x, ctx), [repr(complex(c)) for c in x.coeffs]]
     if isinstance(x, BaseQPDGate):
         return ["qpdgate", ctx.canon_op(x), [repr(complex(c)) for c in x.basis.coeffs]]
     if isinstance(x, Instruction):
@@ -222,6 +227,14 @@ def inst2():
     return q.to_instruction()
 
 
+_PCOUNT = [0]
+
+
+def fresh_param():
+    _PCOUNT[0] += 1
+    return Parameter(f"th{_PCOUNT[0]}")
+
+
 def make_op(it):
     k = it[0]
     if k == "g1":
@@ -229,9 +242,9 @@ def make_op(it):
     if k == "g2":
         return G2[it[1]]()
     if k == "p2":
-        return P2[it[1]](Parameter("th") if it[2] is None else it[2][0] / it[2][1])
+        return P2[it[1]](fresh_param() if it[2] is None else it[2][0] / it[2][1])
     if k == "u2":  # unregistered two-qubit gate (KAK path)
-        return RZXGate(Parameter("th") if it[1] is None else it[1][0] / it[1][1])
+        return RZXGate(fresh_param() if it[1] is None else it[1][0] / it[1][1])
     if k == "g3":
         return G3[it[1]]()
     if k == "inst2":
@@ -393,3 +406,1386 @@ def kind(name):
         KINDS[name].name = name
         return cls
     return deco
+
+
+# --------------------------------------------------------------------------------------
+# numeric limits
+# --------------------------------------------------------------------------------------
+BAD_LT1 = [num(0), num(-3), num(1, 2, True), num(0, 1, True), num(-1, 4, True), num(255, 256, True), ["-inf"]]
+GOOD_GE1 = [num(1), num(2), num(7), num(15, 2, True), num(1, 1, True), num(40), ["inf"]]
+
+
+def pick(rng, l):
+    return l[int(rng.integers(0, len(l)))]
+
+
+def small_bases(rng):
+    ops = [CXGate(), CZGate(), RZZGate(0.5), Move()]
+    return [QPDBasis.from_instruction(ops[int(rng.integers(0, len(ops)))]) for _ in range(int(rng.integers(1, 3)))]
+
+
+@kind("weights")
+class KWeights:
+    checker = "chk_weights"
+
+    def run(self, desc):
+        bases = [QPDBasis.from_instruction({"cx": CXGate(), "cz": CZGate(), "rzz": RZZGate(0.5), "move": Move()}[b])
+                 for b in desc["bases"]]
+        n = budget_value(desc["n"])
+        if desc["private"]:
+            probs = [np.asarray(b.probabilities) for b in bases]
+            impl = observe(_generate_qpd_weights, [probs, n])
+        else:
+            impl = observe(generate_qpd_weights, [bases, n])
+        return dict(n=desc["n"]), impl
+
+    def emit(self, a, impl):
+        return (c_budget(a["n"]), c_out(impl["outcome"]), impl["unchanged"])
+
+    def classes(self, a):
+        if a["n"][0] == "nan":
+            return ["budget_nan"]
+        return [] if b_ge(a["n"], 1) else ["budget_lt1"]
+
+    def gen(self, rng, q):
+        for _ in range(q(30)):
+            r = int(rng.integers(0, 3))
+            n = pick(rng, BAD_LT1) if r == 0 else (["nan"] if r == 1 else pick(rng, GOOD_GE1))
+            bases = [pick(rng, ["cx", "cz", "rzz", "move"]) for _ in range(int(rng.integers(1, 3)))]
+            yield ("budget_lt1" if r == 0 else "budget_nan" if r == 1 else "valid",
+                   dict(n=n, bases=bases, private=bool(rng.integers(0, 2))))
+
+
+@kind("device")
+class KDevice:
+    checker = "chk_device"
+
+    def run(self, desc):
+        return dict(w=desc["w"]), observe(DeviceConstraints, [budget_value(desc["w"])])
+
+    def emit(self, a, impl):
+        return (c_budget(a["w"]), c_out(impl["outcome"]), impl["unchanged"])
+
+    def classes(self, a):
+        return ["width_lt1"] if b_lt(a["w"], 1) else []
+
+    def gen(self, rng, q):
+        for _ in range(q(16)):
+            r = int(rng.integers(0, 5))
+            w = pick(rng, BAD_LT1) if r < 2 else (["nan"] if r == 2 else pick(rng, GOOD_GE1))
+            yield ("width_lt1" if r < 2 else "undoc:nan" if r == 2 else "valid", dict(w=w))
+
+
+@kind("settings")
+class KSettings:
+    checker = "chk_settings"
+
+    def run(self, desc):
+        kw = dict(max_gamma=budget_value(desc["g"]),
+                  max_backjumps=None if desc["bj"] is None else budget_value(desc["bj"]))
+        return dict(g=desc["g"], bj=desc["bj"]), observe(OptimizationSettings, [], kw)
+
+    def emit(self, a, impl):
+        return (c_budget(a["g"]), c_optbudget(a["bj"]), c_out(impl["outcome"]), impl["unchanged"])
+
+    def classes(self, a):
+        out = []
+        if b_lt(a["g"], 1):
+            out.append("gamma_lt1")
+        if a["bj"] is not None and b_lt(a["bj"], 0):
+            out.append("backjumps_negative")
+        return out
+
+    def gen(self, rng, q):
+        for _ in range(q(24)):
+            r = int(rng.integers(0, 4))
+            g = pick(rng, BAD_LT1) if r == 0 else pick(rng, GOOD_GE1 + [["nan"]])
+            bj = pick(rng, [num(-1), num(-7), num(-1, 2, True), ["-inf"]]) if r == 1 else pick(rng, [None, num(0), num(5), num(10000)])
+            yield ("gamma_lt1" if r == 0 else "backjumps_negative" if r == 1 else "valid", dict(g=g, bj=bj))
+
+
+# --------------------------------------------------------------------------------------
+# QPDBasis.from_instruction / _theta_from_instruction
+# --------------------------------------------------------------------------------------
+def fi_items(rng):
+    """(cls, item)"""
+    r = int(rng.integers(0, 9))
+    if r == 0:
+        return "valid", ["g2", pick(rng, list(G2)), [0, 1]]
+    if r == 1:
+        return "valid", ["p2", pick(rng, list(P2)), [int(rng.integers(1, 16)), 8], [0, 1]]
+    if r == 2:
+        return "valid", ["u2", [int(rng.integers(1, 16)), 8], [0, 1]]
+    if r == 3:
+        return "unbound", ["p2", pick(rng, list(P2)), None, [0, 1]]
+    if r == 4:
+        return "unbound", ["u2", None, [0, 1]]
+    if r == 5:
+        return "unsupported", ["g1", pick(rng, list(G1)), [0]]
+    if r == 6:
+        return "unsupported", ["g3", pick(rng, list(G3)), [0, 1, 2]]
+    if r == 7:
+        return "unsupported", pick(rng, [["measure", [0]], ["reset", [0]], ["barrier", [0, 1]], ["inst2", [0, 1]]])
+    return "unsupported", ["qpd2", pick(rng, ["cx", "rzz"]), "lbl", [0, 1]]
+
+
+@kind("from_instruction")
+class KFromInstruction:
+    checker = "chk_from_instruction"
+
+    def run(self, desc):
+        op = make_op(desc["item"])
+        a = dict(desc=gate_desc(op))
+        f = TwoQubitQPDGate.from_instruction if desc.get("via_gate") else QPDBasis.from_instruction
+        return a, observe(f, [op])
+
+    def emit(self, a, impl):
+        return (c_desc(a["desc"]), c_out(impl["outcome"]), impl["unchanged"])
+
+    def classes(self, a):
+        return ["unbound_or_unsupported"] if desc_refuses(a["desc"]) else []
+
+    def gen(self, rng, q):
+        for _ in range(q(50)):
+            cls, it = fi_items(rng)
+            yield cls, dict(item=it, via_gate=bool(rng.integers(0, 2)))
+
+
+@kind("theta")
+class KTheta:
+    checker = "chk_theta"
+
+    def run(self, desc):
+        op = make_op(desc["item"])
+        return dict(bound=gate_desc(op)[2]), observe(_theta_from_instruction, [op])
+
+    def emit(self, a, impl):
+        return (a["bound"], c_out(impl["outcome"]), impl["unchanged"])
+
+    def classes(self, a):
+        return [] if a["bound"] else ["unbound"]
+
+    def gen(self, rng, q):
+        for _ in range(q(14)):
+            b = bool(rng.integers(0, 2))
+            yield ("valid" if b else "unbound",
+                   dict(item=["p2", pick(rng, list(P2)), [int(rng.integers(1, 16)), 8] if b else None, [0, 1]]))
+
+
+# --------------------------------------------------------------------------------------
+# QPDBasis, coeffs setter, QPD gates
+# --------------------------------------------------------------------------------------
+def maps_of(arities):
+    pool = [[], [XGate()], [HGate(), QPDMeasure()], [Reset()]]
+    return [tuple(list(pool[(i + j) % 4]) for j in range(a)) for i, a in enumerate(arities)]
+
+
+def basis_of(nq, nmaps):
+    return QPDBasis(maps_of([nq] * nmaps), [1.0 / nmaps] * nmaps)
+
+
+@kind("qpdbasis")
+class KBasis:
+    checker = "chk_qpdbasis"
+
+    def run(self, desc):
+        maps = maps_of(desc["ar"])
+        co = [0.5] * desc["nco"]
+        return dict(ar=[len(m) for m in maps], nco=len(co)), observe(QPDBasis, [maps, co])
+
+    def emit(self, a, impl):
+        return (a["ar"], a["nco"], c_out(impl["outcome"]), impl["unchanged"])
+
+    def classes(self, a):
+        ar = a["ar"]
+        out = []
+        if len(ar) == 0:
+            out.append("maps_empty")
+        else:
+            if ar[0] > 2:
+                out.append("maps_wide")
+            if any(x != ar[0] for x in ar):
+                out.append("maps_ragged")
+        if a["nco"] != len(ar):
+            out.append("coeffs_count")
+        return out
+
+    def gen(self, rng, q):
+        for _ in range(q(40)):
+            r = int(rng.integers(0, 6))
+            n = int(rng.integers(1, 7))
+            a0 = int(rng.integers(0, 3))
+            ar = [a0] * n
+            nco = n
+            cls = "valid"
+            if r == 0:
+                ar, nco, cls = [], int(rng.integers(0, 2)), "maps_empty"
+            elif r == 1:
+                ar, cls = [int(rng.integers(3, 5))] * n, "maps_wide"
+            elif r == 2 and n >= 2:
+                k = int(rng.integers(1, n))
+                ar[k] = (a0 + int(rng.integers(1, 3))) % 3
+                cls = "maps_ragged"
+            elif r == 3:
+                nco, cls = n + int(pick(rng, [-1, 1, 2])), "coeffs_count"
+            yield cls, dict(ar=ar, nco=nco)
+
+
+@kind("set_coeffs")
+class KSetCoeffs:
+    checker = "chk_set_coeffs"
+
+    def run(self, desc):
+        b = basis_of(desc["nq"], desc["nmaps"])
+        co = [0.25] * desc["nco"]
+
+        def f(basis, coeffs):
+            basis.coeffs = coeffs
+        return dict(nmaps=len(b.maps), nco=len(co)), observe(f, [b, co])
+
+    def emit(self, a, impl):
+        # a successful assignment legitimately changes the basis
+        return (a["nmaps"], a["nco"], c_out(impl["outcome"]), impl["unchanged"])
+
+    def classes(self, a):
+        return ["coeffs_count"] if a["nco"] != a["nmaps"] else []
+
+    def gen(self, rng, q):
+        for _ in range(q(16)):
+            n = int(rng.integers(1, 6))
+            bad = bool(rng.integers(0, 2))
+            yield ("coeffs_count" if bad else "valid",
+                   dict(nq=int(rng.integers(1, 3)), nmaps=n, nco=max(0, n + int(pick(rng, [-1, 1, 3]))) if bad else n))
+
+
+def rand_bid(rng, nmaps, bad):
+    if bad:
+        return int(pick(rng, [nmaps, nmaps + 1, nmaps + 7, -1, -nmaps]))
+    return None if rng.integers(0, 4) == 0 else int(rng.integers(0, nmaps))
+
+
+@kind("set_basis_id")
+class KSetBid:
+    checker = "chk_set_basis_id"
+
+    def run(self, desc):
+        b = basis_of(desc["nq"], desc["nmaps"])
+        g = TwoQubitQPDGate(b, basis_id=desc["bid0"]) if desc["nq"] == 2 else SingleQubitQPDGate(b, 0, basis_id=desc["bid0"])
+
+        def f(gate, bid):
+            gate.basis_id = bid
+        return dict(nmaps=len(b.maps), bid=desc["bid"]), observe(f, [g, desc["bid"]])
+
+    def emit(self, a, impl):
+        return (a["nmaps"], c_optz(a["bid"]), c_out(impl["outcome"]), impl["unchanged"])
+
+    def classes(self, a):
+        return ["map_index_range"] if a["bid"] is not None and not (0 <= a["bid"] < a["nmaps"]) else []
+
+    def gen(self, rng, q):
+        for _ in range(q(24)):
+            n = int(rng.integers(1, 7))
+            bad = bool(rng.integers(0, 2))
+            yield ("map_index_range" if bad else "valid",
+                   dict(nq=int(rng.integers(1, 3)), nmaps=n, bid0=rand_bid(rng, n, False), bid=rand_bid(rng, n, bad)))
+
+
+@kind("q1gate")
+class KQ1:
+    checker = "chk_q1gate"
+
+    def run(self, desc):
+        b = basis_of(desc["nq"], desc["nmaps"])
+        a = dict(nq=b.num_qubits, nmaps=len(b.maps), qid=desc["qid"], bid=desc["bid"])
+        return a, observe(SingleQubitQPDGate, [b, desc["qid"]], dict(basis_id=desc["bid"]))
+
+    def emit(self, a, impl):
+        return (a["nq"], a["nmaps"], c_z(a["qid"]), c_optz(a["bid"]), c_out(impl["outcome"]), impl["unchanged"])
+
+    def classes(self, a):
+        out = []
+        if a["qid"] >= a["nq"]:
+            out.append("half_index_too_large")
+        if a["bid"] is not None and not (0 <= a["bid"] < a["nmaps"]):
+            out.append("map_index_range")
+        return out
+
+    def gen(self, rng, q):
+        for _ in range(q(36)):
+            nq = int(rng.integers(1, 3))
+            n = int(rng.integers(1, 7))
+            r = int(rng.integers(0, 4))
+            qid = int(rng.integers(0, nq))
+            bid = rand_bid(rng, n, False)
+            cls = "valid"
+            if r == 0:
+                qid, cls = nq + int(rng.integers(0, 4)), "half_index_too_large"
+            elif r == 1:
+                bid, cls = rand_bid(rng, n, True), "map_index_range"
+            elif r == 2 and rng.integers(0, 3) == 0:
+                qid, cls = -1, "undoc:negative_half"
+            yield cls, dict(nq=nq, nmaps=n, qid=qid, bid=bid)
+
+
+@kind("q2gate")
+class KQ2:
+    checker = "chk_q2gate"
+
+    def run(self, desc):
+        b = basis_of(desc["nq"], desc["nmaps"])
+        a = dict(nq=b.num_qubits, nmaps=len(b.maps), bid=desc["bid"])
+        return a, observe(TwoQubitQPDGate, [b], dict(basis_id=desc["bid"]))
+
+    def emit(self, a, impl):
+        return (a["nq"], a["nmaps"], c_optz(a["bid"]), c_out(impl["outcome"]), impl["unchanged"])
+
+    def classes(self, a):
+        out = []
+        if a["nq"] != 2:
+            out.append("basis_not_two_qubit")
+        if a["bid"] is not None and not (0 <= a["bid"] < a["nmaps"]):
+            out.append("map_index_range")
+        return out
+
+    def gen(self, rng, q):
+        for _ in range(q(24)):
+            r = int(rng.integers(0, 3))
+            n = int(rng.integers(1, 7))
+            nq = 2 if r else int(pick(rng, [0, 1]))
+            bad = r == 1
+            yield ("basis_not_two_qubit" if r == 0 else "map_index_range" if bad else "valid",
+                   dict(nq=nq, nmaps=n, bid=rand_bid(rng, n, bad)))
+
+
+# --------------------------------------------------------------------------------------
+# partition_circuit_qubits / cut_gates / partition_problem / separate_circuit / find_cuts
+# --------------------------------------------------------------------------------------
+def spans(labels, qs):
+    return len({labels[q] for q in qs})
+
+
+def pcq_classes(labels, insts, nq):
+    """documented refusals of partitioning along `labels` (plain restatement)"""
+    out = []
+    if len(labels) != nq:
+        return ["label_count"]
+    for g in insts:
+        if g["kind"] == "barrier" or len(g["qs"]) <= 1 or spans(labels, g["qs"]) == 1:
+            continue
+        if len(g["qs"]) > 2:
+            out.append("wide_gate_spanning")
+        elif g["kind"] == "op" and desc_refuses(g["desc"]):
+            out.append("unbound_or_unsupported_spanning")
+    return out
+
+
+def gen_partition_case(rng, classes):
+    """common generator for pcq / partition_problem: (cls, nq, items, labels)"""
+    cls = pick(rng, classes)
+    nq = int(rng.integers(1, 6))
+    labels = rand_labels(rng, nq)
+    items = rand_items(rng, nq, labels)
+    if cls in ("wide_gate", "unbound", "unsupported"):
+        qs = spanning_pair(rng, labels, 3 if cls == "wide_gate" else 2)
+        if qs is None:
+            nq = 3 if cls == "wide_gate" else 2
+            nq = int(rng.integers(nq, 6))
+            labels = rand_labels(rng, nq, 2)
+            labels[0], labels[1] = LABEL_POOL[0], LABEL_POOL[1]
+            items = rand_items(rng, nq, labels)
+            qs = spanning_pair(rng, labels, 3 if cls == "wide_gate" else 2)
+        items, _ = insert_random(rng, items, offending_item(rng, cls, qs))
+    elif cls == "label_count":
+        d = int(pick(rng, [-1, 1, 2]))
+        labels = labels[:d] if d < 0 else labels + [labels[0]] * d
+    return cls, nq, items, labels
+
+
+@kind("pcq")
+class KPcq:
+    checker = "chk_pcq"
+    finding = "F12"
+
+    def run(self, desc):
+        qc = build_circuit(desc["nq"], desc["items"])
+        labels = [untag(t) for t in desc["labels"]]
+        a = dict(nq=qc.num_qubits, labels=intern_labels(labels), insts=abs_insts(qc), inplace=desc["inplace"])
+        impl = observe(partition_circuit_qubits, [qc, labels], dict(inplace=desc["inplace"]),
+                       state=lambda: [isinstance(i.operation, TwoQubitQPDGate) for i in qc.data])
+        return a, impl
+
+    def emit(self, a, impl):
+        i = Raw(f"(mkPcq {a['nq']} {coq(c_labels(a['labels']))} {coq([c_ginst(g) for g in a['insts']])})")
+        return (i, a["inplace"], c_out(impl["outcome"]), impl["unchanged"], [bool(b) for b in impl["final"]])
+
+    def classes(self, a):
+        return pcq_classes(a["labels"], a["insts"], a["nq"])
+
+    def gen(self, rng, q):
+        for _ in range(q(110)):
+            cls, nq, items, labels = gen_partition_case(rng, ["valid", "valid", "wide_gate", "wide_gate", "unbound", "unsupported", "label_count"])
+            yield cls, dict(nq=nq, items=items, labels=[tagged(l) for l in labels], inplace=bool(rng.integers(0, 2)))
+
+
+@kind("cut_gates")
+class KCutGates:
+    checker = "chk_cut_gates"
+    finding = "F13"
+
+    def run(self, desc):
+        qc = build_circuit(desc["nq"], desc["items"], desc["clbits"])
+        before = list(qc.data)
+        a = dict(ncregs=len(qc.cregs), nclbits=qc.num_clbits, ops=[gate_desc(i.operation) for i in qc.data],
+                 ids=list(desc["ids"]), inplace=desc["inplace"])
+        impl = observe(cut_gates, [qc, list(desc["ids"])], dict(inplace=desc["inplace"]),
+                       state=lambda: [qc.data[k].operation is not before[k].operation and qc.data[k] != before[k]
+                                      for k in range(len(before))])
+        return a, impl
+
+    def emit(self, a, impl):
+        i = Raw(f"(mkCg {a['ncregs']} {a['nclbits']} {coq([c_desc(d) for d in a['ops']])} {coq(a['ids'])})")
+        return (i, a["inplace"], c_out(impl["outcome"]), impl["unchanged"], [bool(b) for b in impl["final"]])
+
+    def classes(self, a):
+        out = []
+        if a["ncregs"] != 0 or a["nclbits"] != 0:
+            out.append("classical_bits")
+        if all(k < len(a["ops"]) for k in a["ids"]) and any(desc_refuses(a["ops"][k]) for k in a["ids"]):
+            out.append("unbound_or_unsupported")
+        return out
+
+    def gen(self, rng, q):
+        for _ in range(q(90)):
+            cls = pick(rng, ["valid", "valid", "classical_bits", "unbound", "unsupported", "unsupported", "undoc:index"])
+            nq = int(rng.integers(2, 6))
+            items = rand_items(rng, nq, None, n=int(rng.integers(2, 8)))
+            good = [k for k, it in enumerate(items) if it[0] in ("g2", "u2") or (it[0] == "p2" and it[2] is not None)]
+            if not good:
+                items.append(["g2", "cx", [0, 1]])
+                good = [len(items) - 1]
+            ids = [int(k) for k in rng.permutation(good)[: int(rng.integers(1, len(good) + 1))]]
+            clbits = None
+            if cls == "classical_bits":
+                clbits = pick(rng, ["creg", "loose", "empty_creg", "creg2"])
+            elif cls in ("unbound", "unsupported"):
+                if cls == "unbound":
+                    it = offending_item(rng, "unbound", [0, 1])
+                else:
+                    it = pick(rng, [["g1", "h", [0]], ["inst2", [0, 1]], ["barrier", [0, 1]], ["qpd2", "cx", "l", [0, 1]]] +
+                              ([["g3", "ccx", [0, 1, 2]]] if nq >= 3 else []))
+                items, pos = insert_random(rng, items, it)
+                ids = [k + 1 if k >= pos else k for k in ids]
+                ids.insert(int(rng.integers(0, len(ids) + 1)), pos)
+            elif cls == "undoc:index":
+                ids.insert(int(rng.integers(0, len(ids) + 1)), len(items) + int(rng.integers(0, 3)))
+            yield cls, dict(nq=nq, items=items, ids=ids, clbits=clbits, inplace=bool(rng.integers(0, 2)))
+
+
+LET = "IXYZ"
+
+
+def rand_obs(rng, nq, k=None, identity_on=()):
+    k = int(rng.integers(1, 4)) if k is None else k
+    out = []
+    for _ in range(k):
+        s = [LET[int(rng.integers(0, 4))] for _ in range(nq)]
+        for q in identity_on:
+            s[q] = "I"
+        out.append([0, "".join(reversed(s))])
+    return out
+
+
+def make_obs(obs, aslist=False):
+    ps = []
+    for ph, lab in obs:
+        p = Pauli(lab)
+        p.phase = ph
+        ps.append(p)
+    return ps if aslist else PauliList(ps)
+
+
+@kind("partition_problem")
+class KPartitionProblem:
+    checker = "chk_partition_problem"
+
+    def run(self, desc):
+        qc = build_circuit(desc["nq"], desc["items"], desc["clbits"])
+        labels = None if desc["labels"] is None else [untag(t) for t in desc["labels"]]
+        obs = None if desc["obs"] is None else make_obs(desc["obs"], desc["aslist"])
+        a = dict(nq=qc.num_qubits, labels=None if labels is None else intern_labels(labels),
+                 obs=None if obs is None else [[len(p), int(p.phase)] for p in obs],
+                 ncregs=len(qc.cregs), nclbits=qc.num_clbits, insts=abs_insts(qc))
+        return a, observe(partition_problem, [qc, labels, obs])
+
+    def emit(self, a, impl):
+        labels = "None" if a["labels"] is None else f"(Some {coq(c_labels(a['labels']))})"
+        obs = "None" if a["obs"] is None else f"(Some {coq([tuple(o) for o in a['obs']])})"
+        i = Raw(f"(mkPp {a['nq']} {labels} {obs} {a['ncregs']} {a['nclbits']} {coq([c_ginst(g) for g in a['insts']])})")
+        return (i, c_out(impl["outcome"]), impl["unchanged"])
+
+    def classes(self, a):
+        out = []
+        if a["labels"] is not None and len(a["labels"]) != a["nq"]:
+            out.append("label_count")
+        if a["obs"] is not None:
+            if any(o[0] != a["nq"] for o in a["obs"]):
+                out.append("observable_size")
+            if any(o[1] != 0 for o in a["obs"]):
+                out.append("observable_phase")
+        if a["ncregs"] != 0 or a["nclbits"] != 0:
+            out.append("classical_bits")
+        if a["labels"] is not None and len(a["labels"]) == a["nq"]:
+            out += pcq_classes(a["labels"], a["insts"], a["nq"])
+            if any(a["labels"][q] is None for g in a["insts"] for q in g["qs"]):
+                out.append("none_label_not_idle")
+        return out
+
+    def gen(self, rng, q):
+        C = ["valid", "valid", "valid_auto", "label_count", "observable_size", "observable_phase", "observable_phase",
+             "classical_bits", "wide_gate", "unbound", "unsupported", "none_label_not_idle"]
+        for _ in range(q(150)):
+            cls0 = pick(rng, C)
+            cls, nq, items, labels = gen_partition_case(rng, [cls0 if cls0 in ("wide_gate", "unbound", "unsupported", "label_count") else "valid"])
+            cls = cls0
+            obs = rand_obs(rng, nq, int(rng.integers(1, 5))) if rng.integers(0, 6) else None
+            aslist = False
+            clbits = None
+            if cls == "valid_auto":
+                # automatic labels: touch every qubit so that no qubit is idle (F4 is C10's business)
+                items = [it for it in items if it[0] != "inst2" and not (it[0] == "p2" and it[2] is None)]
+                items += [["g1", "h", [k]] for k in range(nq)]
+                labels = None
+            if cls in ("observable_size", "observable_phase") and obs is None:
+                obs = rand_obs(rng, nq, int(rng.integers(1, 5)))
+            if cls == "observable_size":
+                k = int(rng.integers(0, len(obs)))
+                m = max(1, nq + int(pick(rng, [-1, 1, 2])))
+                if m == nq:
+                    m = nq + 1
+                if rng.integers(0, 2):        # only observable k is wrong: needs a list of Pauli
+                    aslist = True
+                    obs[k] = rand_obs(rng, m, 1)[0]
+                else:                          # PauliList: every observable has the wrong size
+                    obs = rand_obs(rng, m, len(obs))
+            if cls == "observable_phase":
+                k = int(rng.integers(0, len(obs)))
+                obs[k][0] = int(rng.integers(1, 4))
+                aslist = bool(rng.integers(0, 4) == 0)
+            if cls == "classical_bits":
+                clbits = pick(rng, ["creg", "loose", "empty_creg", "creg2"])
+            if cls == "none_label_not_idle":
+                used = sorted({qq for it in items for qq in it[-1]})
+                if not used:
+                    items.append(["g1", "x", [0]])
+                    used = [0]
+                labels = list(labels)
+                labels[int(pick(rng, used))] = None
+            yield cls, dict(nq=nq, items=items, labels=None if labels is None else [tagged(l) for l in labels],
+                            obs=obs, aslist=aslist, clbits=clbits)
+
+
+@kind("separate")
+class KSeparate:
+    checker = "chk_separate"
+
+    def run(self, desc):
+        qc = build_circuit(desc["nq"], desc["items"])
+        labels = None if desc["labels"] is None else [untag(t) for t in desc["labels"]]
+        a = dict(nq=qc.num_qubits, labels=None if labels is None else intern_labels(labels),
+                 insts=[[i.operation.name == "barrier", [qc.find_bit(x).index for x in i.qubits]] for i in qc.data])
+        return a, observe(separate_circuit, [qc, labels])
+
+    def emit(self, a, impl):
+        labels = "None" if a["labels"] is None else f"(Some {coq(c_labels(a['labels']))})"
+        i = Raw(f"(mkSep {a['nq']} {labels} {coq([(bool(b), list(qs)) for b, qs in a['insts']])})")
+        return (i, c_out(impl["outcome"]), impl["unchanged"])
+
+    def classes(self, a):
+        if a["labels"] is None:
+            return []
+        if len(a["labels"]) != a["nq"]:
+            return ["label_count"]
+        out = []
+        for b, qs in a["insts"]:
+            if any(a["labels"][x] is None for x in qs):
+                out.append("none_label_not_idle")
+            elif not b and spans(a["labels"], qs) > 1:
+                out.append("spans_partitions")
+        return out
+
+    def gen(self, rng, q):
+        for _ in range(q(70)):
+            cls = pick(rng, ["valid", "valid", "valid_auto", "label_count", "spans_partitions", "none_label_not_idle"])
+            nq = int(rng.integers(1, 6))
+            labels = rand_labels(rng, nq)
+            items = [it for it in rand_items(rng, nq, labels) if len(it[-1]) == 1 or it[0] == "barrier" or spans(labels, it[-1]) == 1]
+            if cls == "valid_auto":
+                labels = None
+            elif cls == "label_count":
+                d = int(pick(rng, [-1, 1, 2]))
+                labels = labels[:d] if d < 0 else labels + [labels[0]] * d
+            elif cls == "spans_partitions":
+                qs = spanning_pair(rng, labels, int(pick(rng, [2, 2, 3])))
+                if qs is None:
+                    nq, labels = 3, ["A", "B", "A"]
+                    items = []
+                    qs = [0, 1]
+                items, _ = insert_random(rng, items, ["g2", "cx", qs] if len(qs) == 2 else ["g3", "ccx", qs])
+            elif cls == "none_label_not_idle":
+                if not items:
+                    items = [["g1", "x", [0]]]
+                used = sorted({qq for it in items for qq in it[-1]})
+                labels[int(pick(rng, used))] = None
+            yield cls, dict(nq=nq, items=items, labels=None if labels is None else [tagged(l) for l in labels])
+
+
+@kind("find_cuts")
+class KFindCuts:
+    checker = "chk_find_cuts"
+
+    def run(self, desc):
+        qc = build_circuit(desc["nq"], desc["items"])
+        opt = OptimizationParameters(seed=desc["seed"], max_gamma=budget_value(desc["g"]),
+                                     max_backjumps=None if desc["bj"] is None else budget_value(desc["bj"]))
+        dc = DeviceConstraints(desc["W"])
+        a = dict(insts=abs_insts(qc), g=desc["g"], bj=desc["bj"])
+        return a, observe(find_cuts, [qc, opt, dc])
+
+    def emit(self, a, impl):
+        i = Raw(f"(mkFc {coq([c_ginst(g) for g in a['insts']])} {c_budget(a['g']).s} {c_optbudget(a['bj']).s})")
+        return (i, c_out(impl["outcome"]), impl["unchanged"])
+
+    def classes(self, a):
+        out = []
+        if b_lt(a["g"], 1):
+            out.append("gamma_lt1")
+        if a["bj"] is not None and b_lt(a["bj"], 0):
+            out.append("backjumps_negative")
+        for g in a["insts"]:
+            if g["kind"] != "barrier" and len(g["qs"]) > 2:
+                out.append("wide_gate")
+            if g["kind"] == "op" and g["desc"][3] and len(g["qs"]) == 2 and desc_refuses(g["desc"]):
+                out.append("unbound")
+        return out
+
+    def gen(self, rng, q):
+        for _ in range(q(60)):
+            cls = pick(rng, ["valid", "gamma_lt1", "backjumps_negative", "wide_gate", "wide_gate", "unbound"])
+            nq = int(rng.integers(2, 5))
+            items = [it for it in rand_items(rng, nq, None, n=int(rng.integers(1, 6)), allow_wide_local=False)]
+            g, bj = pick(rng, [num(1024), num(64), num(4), num(9, 2, True)]), pick(rng, [None, num(10000), num(0), num(50)])
+            if cls == "gamma_lt1":
+                g = pick(rng, BAD_LT1)
+            elif cls == "backjumps_negative":
+                bj = pick(rng, [num(-1), num(-20)])
+            elif cls == "wide_gate":
+                if nq < 3:
+                    nq = 3
+                items, _ = insert_random(rng, items, ["g3", pick(rng, list(G3)), [int(x) for x in rng.permutation(nq)[:3]]])
+            elif cls == "unbound":
+                a, b = (int(x) for x in rng.permutation(nq)[:2])
+                items, _ = insert_random(rng, items, offending_item(rng, "unbound", [a, b]))
+            yield cls, dict(nq=nq, items=items, g=g, bj=bj, W=int(rng.integers(1, nq + 1)), seed=int(rng.integers(0, 1000)))
+
+
+# --------------------------------------------------------------------------------------
+# generate_cutting_experiments
+# --------------------------------------------------------------------------------------
+def suffix_int(label):
+    try:
+        int(label.split("_")[-1])
+        return True
+    except (AttributeError, ValueError):
+        return False
+
+
+def gen_kinds(qc):
+    out = []
+    for inst in qc.data:
+        op = inst.operation
+        if isinstance(op, SingleQubitQPDGate):
+            out.append(["q1", suffix_int(op.label)])
+        elif isinstance(op, TwoQubitQPDGate):
+            out.append(["q2"])
+        else:
+            out.append(["o"])
+    return out
+
+
+def c_genkind(k):
+    return Raw({"q2": "GQpd2", "o": "GOther"}.get(k[0]) or f"(GQpd1 {'true' if k[1] else 'false'})")
+
+
+BAD_LABELS = [None, "foo", "cut_cx", "cut_x", "a_b_c", "cut_1.0", "cut_", "_"]
+
+
+@kind("generate")
+class KGenerate:
+    checker = "chk_generate"
+
+    def build(self, desc):
+        nq = desc["nq"]
+        obs = make_obs(desc["obs"])
+        if desc["sep"]:
+            qc = build_circuit(nq, desc["items"])
+            labels = [untag(t) for t in desc["labels"]]
+            pp = partition_problem(qc, labels, obs)
+            circuits, observables = dict(pp.subcircuits), dict(pp.subobservables)
+        else:
+            circuits, observables = build_circuit(nq, desc["items"]), obs
+        m = desc.get("mutate")
+        if m and m[0] == "label":
+            # relabel the m[2]-th SingleQubitQPDGate of the m[1]-th subcircuit
+            allpos = [(key, i) for key, c in circuits.items() for i, inst in enumerate(c.data)
+                      if isinstance(inst.operation, SingleQubitQPDGate)]
+            key, i = allpos[(m[1] + m[2]) % len(allpos)]
+            c = circuits[key]
+            old = c.data[i].operation
+            c.data[i] = c.data[i].replace(operation=SingleQubitQPDGate(old.basis, old.qubit_id, label=m[3]))
+        elif m and m[0] == "q1":
+            b = QPDBasis.from_instruction(CXGate())
+            circuits.data.insert(m[1] % (len(circuits.data) + 1),
+                                 CircuitInstruction(SingleQubitQPDGate(b, m[2], label=m[3]), [circuits.qubits[m[4] % nq]]))
+        cf, of = desc["cform"], desc["oform"]
+        if cf == "dict" and not desc["sep"]:
+            circuits = {"A": circuits}
+        if cf == "other":
+            circuits = list(circuits.values()) if isinstance(circuits, dict) else [circuits]
+        if of == "dict" and not isinstance(observables, dict):
+            observables = {"A": observables}
+        elif of == "plist" and isinstance(observables, dict):
+            observables = obs
+        elif of == "list":
+            observables = list(obs)
+        elif of == "none":
+            observables = None
+        return circuits, observables, budget_value(desc["n"])
+
+    def run(self, desc):
+        circuits, observables, n = self.build(desc)
+        cf = "circuit" if isinstance(circuits, QuantumCircuit) else "dict" if isinstance(circuits, dict) else "other"
+        of = "plist" if isinstance(observables, PauliList) else "dict" if isinstance(observables, dict) else "other"
+        cs = [gen_kinds(circuits)] if cf == "circuit" else [gen_kinds(c) for c in circuits.values()] if cf == "dict" else []
+        a = dict(cform=cf, oform=of, n=desc["n"], circs=cs)
+        return a, observe(generate_cutting_experiments, [circuits, observables, n])
+
+    def emit(self, a, impl):
+        cf = {"circuit": "CCircuit", "dict": "CDict", "other": "COther"}[a["cform"]]
+        of = {"plist": "OPauliList", "dict": "ODict", "other": "OOther"}[a["oform"]]
+        i = Raw(f"(mkGen {cf} {of} {c_budget(a['n']).s} {coq([[c_genkind(k) for k in c] for c in a['circs']])})")
+        return (i, c_out(impl["outcome"]), impl["unchanged"])
+
+    def classes(self, a):
+        out = []
+        if a["cform"] == "circuit" and a["oform"] != "plist":
+            out.append("form_circuit_needs_paulilist")
+        if a["cform"] == "dict" and a["oform"] != "dict":
+            out.append("form_dict_needs_dict")
+        if a["n"][0] == "nan":
+            out.append("budget_nan")
+        elif not b_ge(a["n"], 1):
+            out.append("budget_lt1")
+        if a["cform"] == "circuit" and any(k[0] == "q1" for c in a["circs"] for k in c):
+            out.append("single_qubit_qpd_gate_unseparated")
+        if a["cform"] == "dict" and any(k[0] == "q1" and not k[1] for c in a["circs"] for k in c):
+            out.append("label_suffix")
+        return out
+
+    def gen(self, rng, q):
+        C = ["valid_sep", "valid_unsep", "form_circuit", "form_dict", "budget_lt1", "budget_nan", "q1_unsep", "label", "label",
+             "undoc:other_form"]
+        for _ in range(q(110)):
+            cls = pick(rng, C)
+            sep = cls in ("valid_sep", "label") or (cls in ("form_dict", "budget_lt1", "budget_nan", "undoc:other_form") and rng.integers(0, 2))
+            nq = int(rng.integers(2, 5))
+            n = pick(rng, [num(1), num(3), num(10), num(25, 2, True), ["inf"]])
+            mutate = None
+            if sep:
+                labels = rand_labels(rng, nq, 2)
+                labels[0], labels[1] = "A", "B"
+                items = [it for it in rand_items(rng, nq, labels, n=int(rng.integers(1, 5)), allow_wide_local=False)]
+                iscut = lambda it: it[0] != "barrier" and len(it[-1]) == 2 and spans(labels, it[-1]) > 1  # noqa: E731
+                ncut = sum(1 for it in items if iscut(it))
+                while ncut > 2:   # keep the number of cuts (6^k terms) small
+                    k = max(i for i, it in enumerate(items) if iscut(it))
+                    items.pop(k)
+                    ncut -= 1
+                if ncut == 0:
+                    items.append(["g2", "cx", [0, 1]])
+                items += [["g1", "h", [k]] for k in range(nq)]
+                d = dict(sep=True, labels=[tagged(l) for l in labels], cform="dict", oform="dict")
+            else:
+                items = []
+                for _k in range(int(rng.integers(1, 5))):
+                    a, b = (int(x) for x in rng.permutation(nq)[:2])
+                    items.append(pick(rng, [["g1", "h", [a]], ["g2", "cx", [a, b]], ["g1", "sx", [b]]]))
+                for _k in range(int(rng.integers(1, 3))):
+                    a, b = (int(x) for x in rng.permutation(nq)[:2])
+                    items, _ = insert_random(rng, items, ["qpd2", pick(rng, ["cx", "cz", "rzz"]), None, [a, b]])
+                d = dict(sep=False, cform="circuit", oform="plist")
+            if cls == "form_circuit":
+                d["oform"] = pick(rng, ["dict", "list", "none"])
+            elif cls == "form_dict":
+                d["cform"], d["oform"] = "dict", pick(rng, ["plist", "list", "none"])
+            elif cls == "budget_lt1":
+                n = pick(rng, BAD_LT1)
+            elif cls == "budget_nan":
+                n = ["nan"]
+            elif cls == "q1_unsep":
+                mutate = ["q1", int(rng.integers(0, 50)), int(rng.integers(0, 2)), pick(rng, ["cut_cx_0", None, "foo"]), int(rng.integers(0, 50))]
+            elif cls == "label":
+                mutate = ["label", int(rng.integers(0, 50)), int(rng.integers(0, 50)), pick(rng, BAD_LABELS)]
+            elif cls == "undoc:other_form":
+                d["cform"], d["oform"] = "other", "dict"
+            d.update(nq=nq, items=items, obs=rand_obs(rng, nq, int(rng.integers(1, 3))), n=n, mutate=mutate)
+            yield cls, d
+
+
+# --------------------------------------------------------------------------------------
+# reconstruct_expectation_values
+# --------------------------------------------------------------------------------------
+def fake_result(count):
+    return SamplerResult(quasi_dists=[QuasiDistribution({0: 0.75, 1: 0.25}) for _ in range(count)], metadata=[{} for _ in range(count)])
+
+
+@kind("reconstruct")
+class KReconstruct:
+    checker = "chk_reconstruct"
+
+    def build(self, desc):
+        obs = {untag(k): make_obs(v) for k, v in desc["obs"]}
+        results = {untag(k): fake_result(c) for k, c in desc["results"]}
+        coefs = [(0.5 if i % 2 else -0.25, WeightType.EXACT) for i in range(desc["ncoef"])]
+        of, rf = desc["oform"], desc["rform"]
+        o = obs if of == "dict" else list(obs.values())[0] if of == "plist" else (list(list(obs.values())[0]) if of == "list" else None)
+        r = results if rf == "dict" else list(results.values())[0] if rf == "result" else (list(results.values()) if rf == "list" else None)
+        return r, coefs, o
+
+    def run(self, desc):
+        r, coefs, o = self.build(desc)
+        of = "plist" if isinstance(o, PauliList) else "dict" if isinstance(o, dict) else "other"
+        rf = "result" if isinstance(r, (SamplerResult, PrimitiveResult)) else "dict" if isinstance(r, dict) else "other"
+        subs = [o] if of == "plist" else list(o.values()) if of == "dict" else []
+        phases = [[int(p.phase) for p in s] for s in subs]
+        keys_match = of == "dict" and rf == "dict" and o.keys() == r.keys()
+        counts = []
+        if (of == "plist" and rf == "result") or keys_match:
+            res = [r] if of == "plist" else [r[k] for k in o]
+            for s, rr in zip(subs, res):
+                strip = PauliList([Pauli((p.z, p.x)) for p in s])     # phases dropped: only the grouping is needed
+                counts.append([len(rr.quasi_dists), len(ObservableCollection(strip).groups)])
+        a = dict(oform=of, rform=rf, phases=phases, keys_match=bool(keys_match), ncoef=len(coefs), counts=counts)
+        return a, observe(reconstruct_expectation_values, [r, coefs, o])
+
+    def emit(self, a, impl):
+        of = {"plist": "OPauliList", "dict": "ODict", "other": "OOther"}[a["oform"]]
+        rf = {"result": "RResult", "dict": "RDict", "other": "ROther"}[a["rform"]]
+        i = Raw(f"(mkRec {of} {rf} {coq(a['phases'])} {coq(a['keys_match'])} {a['ncoef']} {coq([tuple(c) for c in a['counts']])})")
+        return (i, c_out(impl["outcome"]), impl["unchanged"])
+
+    def classes(self, a):
+        out = []
+        if a["oform"] == "other":
+            out.append("form_observables")
+        if a["oform"] == "plist" and a["rform"] != "result":
+            out.append("form_paulilist_needs_result")
+        if a["oform"] == "dict" and a["rform"] != "dict":
+            out.append("form_dict_needs_dict")
+        if a["oform"] == "dict" and a["rform"] == "dict" and not a["keys_match"]:
+            out.append("partition_keys")
+        if any(p != 0 for s in a["phases"] for p in s):
+            out.append("observable_phase")
+        if any(n != a["ncoef"] * g for n, g in a["counts"]):
+            out.append("result_count")
+        return out
+
+    def gen(self, rng, q):
+        C = ["valid_dict", "valid_plist", "form_plist", "form_dict", "form_other", "keys", "phase", "phase", "counts", "counts"]
+        for _ in range(q(110)):
+            cls = pick(rng, C)
+            single = cls in ("valid_plist", "form_plist") or (cls in ("phase", "counts", "form_other") and rng.integers(0, 3) == 0)
+            nsub = 1 if single else int(rng.integers(1, 4))
+            keys = [LABEL_POOL[i] for i in rng.permutation(len(LABEL_POOL))[:nsub]]
+            m = int(rng.integers(1, 4))
+            ncoef = int(rng.integers(1, 5))
+            obs, results = [], []
+            for k in keys:
+                o = rand_obs(rng, int(rng.integers(1, 4)), m)
+                strip = PauliList([Pauli(x[1]) for x in o])
+                obs.append([tagged(k), o])
+                results.append([tagged(k), ncoef * len(ObservableCollection(strip).groups)])
+            d = dict(oform="plist" if single else "dict", rform="result" if single else "dict")
+            if cls == "form_plist":
+                d["rform"] = pick(rng, ["dict", "list", "none"])
+            elif cls == "form_dict":
+                d["rform"] = pick(rng, ["result", "list", "none"])
+            elif cls == "form_other":
+                d["oform"] = pick(rng, ["list", "none"])
+            elif cls == "keys":
+                r = int(rng.integers(0, 3))
+                j = int(rng.integers(0, nsub))
+                if r == 0:
+                    results[j][0] = tagged("zz")
+                elif r == 1 and nsub > 1:
+                    results.pop(j)
+                else:
+                    results.append([tagged("extra"), 1])
+            elif cls == "phase":
+                j, k = int(rng.integers(0, nsub)), int(rng.integers(0, m))
+                obs[j][1][k][0] = int(rng.integers(1, 4))
+            elif cls == "counts":
+                j = int(rng.integers(0, nsub))
+                if rng.integers(0, 2):
+                    results[j][1] = max(0, results[j][1] + int(pick(rng, [-1, 1, 2])))
+                else:
+                    ncoef += 1
+            d.update(obs=obs, results=results, ncoef=ncoef)
+            yield cls, d
+
+
+# --------------------------------------------------------------------------------------
+# decompose_qpd_instructions
+# --------------------------------------------------------------------------------------
+DQ_BASES = ["cx", "cz", "rzz", "move", "cx"]        # index = basis slot; slots 0 and 4 are == (both CX)
+
+
+def dq_basis(slot):
+    return QPDBasis.from_instruction({"cx": CXGate(), "cz": CZGate(), "rzz": RZZGate(0.5), "move": Move()}[DQ_BASES[slot]])
+
+
+def dq_build(desc):
+    """items: ["g1",name,[q]] | ["g2",name,[a,b]] | ["q2", slot, bid, [a,b]] | ["q1", slot, half, bid, [q]]"""
+    qc = QuantumCircuit(desc["nq"])
+    for it in desc["items"]:
+        if it[0] == "q2":
+            qc.append(TwoQubitQPDGate(dq_basis(it[1]), basis_id=it[2], label="cut_0"), it[3])
+        elif it[0] == "q1":
+            qc.append(SingleQubitQPDGate(dq_basis(it[1]), it[2], basis_id=it[3], label="cut_0"), it[4])
+        else:
+            qc.append(make_op(it), it[-1])
+    return qc
+
+
+def dq_abs(qc):
+    ctx = CircCtx()
+    out = []
+    for inst in qc.data:
+        op = inst.operation
+        if isinstance(op, BaseQPDGate):
+            out.append([ctx.basis_id(op.basis), len(op.basis.maps), op.basis_id])
+        else:
+            out.append(None)
+    return out
+
+
+def dq_bids(qc):
+    return [getattr(i.operation, "basis_id", None) if isinstance(i.operation, BaseQPDGate) else None for i in qc.data]
+
+
+@kind("decompose")
+class KDecompose:
+    checker = "chk_dq"
+    finding = "F7"
+
+    def run(self, desc):
+        qc = dq_build(desc)
+        ids = [list(g) for g in desc["ids"]]
+        maps = None if desc["maps"] is None else list(desc["maps"])
+        a = dict(circ=dq_abs(qc), ids=ids, maps=maps, inplace=desc["inplace"])
+        args = [qc, ids] + ([] if maps is None else [maps])
+        impl = observe(decompose_qpd_instructions, args, dict(inplace=desc["inplace"]),
+                       state=lambda: dq_bids(qc) if len(qc.data) == len(a["circ"]) else None)
+        return a, impl
+
+    def emit(self, a, impl):
+        circ = [Raw("DOther") if x is None else Raw(f"(DQ {x[0]} {x[1]} {c_optn(x[2]).s})") for x in a["circ"]]
+        maps = "None" if a["maps"] is None else f"(Some {coq([c_z(m) for m in a['maps']])})"
+        i = Raw(f"(mkDq {coq(circ)} {coq(a['ids'])} {maps})")
+        fin = impl["final"] if impl["final"] is not None else []
+        return (i, a["inplace"], c_out(impl["outcome"]), impl["unchanged"], [c_optn(b) for b in fin])
+
+    def classes(self, a):
+        c, ids, maps = a["circ"], a["ids"], a["maps"]
+        out = []
+        if any(k >= len(c) for g in ids for k in g):
+            return []           # IndexError territory: not a documented class
+        if any(len(g) not in (1, 2) for g in ids):
+            out.append("group_size")
+        if any(c[k] is None for g in ids for k in g):
+            out.append("not_a_qpd_gate")
+        if any(c[k] is not None and c[g[0]] is not None and c[k][0] != c[g[0]][0] for g in ids for k in g):
+            out.append("bases_differ")
+        if sum(len(g) for g in ids) != sum(1 for x in c if x is not None):
+            out.append("gate_total")
+        if maps is not None:
+            if len(maps) != len(ids):
+                out.append("map_count")
+            elif any(c[k] is not None and not (0 <= m < c[k][1]) for g, m in zip(ids, maps) for k in g):
+                out.append("map_index_range")
+        return out
+
+    def gen(self, rng, q):
+        C = ["valid", "valid", "group_size", "not_a_qpd_gate", "bases_differ", "gate_total", "map_count",
+             "map_index_range", "map_index_range", "map_index_range", "undoc:index"]
+        for _ in range(q(160)):
+            cls = pick(rng, C)
+            nq = int(rng.integers(2, 5))
+            items, groups = [], []
+            for _k in range(int(rng.integers(1, 5))):
+                r = int(rng.integers(0, 4))
+                a, b = (int(x) for x in rng.permutation(nq)[:2])
+                if r == 0:
+                    items.append(["g1", pick(rng, list(G1)), [a]])
+                elif r == 1:
+                    items.append(["g2", "cx", [a, b]])
+                elif r == 2:
+                    slot = int(rng.integers(0, len(DQ_BASES)))
+                    items.append(["q2", slot, None, [a, b]])
+                    groups.append(([len(items) - 1], slot))
+                else:
+                    slot, slot2 = int(pick(rng, [0, 1, 2, 4])), None
+                    slot2 = 4 - slot if slot in (0, 4) and rng.integers(0, 2) else slot   # == bases in different objects
+                    items.append(["q1", slot, 0, None, [a]])
+                    if rng.integers(0, 2):
+                        items.append(["g1", "h", [b]])
+                    items.append(["q1", slot2, 1, None, [b]])
+                    i1 = len(items) - 1
+                    i0 = i1 - 1 if items[i1 - 1][0] == "q1" else i1 - 2
+                    groups.append(([i0, i1], slot))
+            if not groups:
+                items.append(["q2", 0, None, [0, 1]])
+                groups.append(([len(items) - 1], 0))
+            if not any(it[0] in ("g1", "g2") for it in items):
+                items.append(["g1", "x", [0]])
+            while cls == "map_index_range" and len(groups) < 2:
+                items.append(["q2", int(rng.integers(0, 4)), None, [0, 1]])
+                groups.append(([len(items) - 1], items[-1][1]))
+            order = [int(x) for x in rng.permutation(len(groups))]
+            groups = [groups[i] for i in order]
+            ids = [list(g) for g, _ in groups]
+            nm = [len(dq_basis(s).maps) for _, s in groups]
+            maps = [int(rng.integers(0, n)) for n in nm]
+            other = [i for i, it in enumerate(items) if it[0] in ("g1", "g2")]
+            j = int(rng.integers(0, len(ids)))
+            if cls == "map_index_range" and len(ids) > 1 and rng.integers(0, 5):
+                j = int(rng.integers(1, len(ids)))      # offending id after at least one good one
+            if cls == "group_size":
+                ids[j] = pick(rng, [[], ids[j] + [other[0], other[0]][: 3 - len(ids[j])]])
+            elif cls == "not_a_qpd_gate":
+                g = list(ids[j])
+                g[int(rng.integers(0, len(g)))] = int(pick(rng, other))
+                ids[j] = g
+            elif cls == "bases_differ":
+                a, b = (int(x) for x in rng.permutation(nq)[:2])
+                items += [["q1", 0, 0, None, [a]], ["q1", 1, 1, None, [b]]]
+                ids.insert(j, [len(items) - 2, len(items) - 1])
+                maps.insert(j, 0)
+            elif cls == "gate_total":
+                if len(ids) > 1 and rng.integers(0, 2):
+                    ids.pop(j)
+                    maps.pop(j)
+                else:
+                    items.append(["q2", 0, None, [0, 1]])
+            elif cls == "map_count":
+                maps = maps[:-1] if rng.integers(0, 2) else maps + [0]
+            elif cls == "map_index_range":
+                maps[j] = int(pick(rng, [nm[j], nm[j] + 3, -1, -nm[j], 99]))
+            elif cls == "undoc:index":
+                ids[j] = [len(items) + int(rng.integers(0, 3))]
+            use_maps = True
+            if cls in ("valid", "group_size", "not_a_qpd_gate", "gate_total") and rng.integers(0, 4) == 0:
+                # no map_ids: every gate carries its basis_id already (unset ids are C14/F5's business)
+                use_maps = False
+                for (g, _), m in zip(groups, maps):
+                    for k in g:
+                        items[k][2 if items[k][0] == "q2" else 3] = m
+                for it in items:
+                    if it[0] == "q2" and it[2] is None:
+                        it[2] = 0
+            yield cls, dict(nq=nq, items=items, ids=ids, maps=maps if use_maps else None, inplace=bool(rng.integers(0, 3)))
+
+
+# --------------------------------------------------------------------------------------
+# expand_observables, simulate_statevector_outcomes, observable grouping
+# --------------------------------------------------------------------------------------
+@kind("expand")
+class KExpand:
+    checker = "chk_expand"
+
+    def run(self, desc):
+        objs = {k: Qubit() for k in set(desc["oq"]) | set(desc["fq"])}
+        oc, fc = QuantumCircuit(), QuantumCircuit()
+        oc.add_bits([objs[k] for k in desc["oq"]])
+        fc.add_bits([objs[k] for k in desc["fq"]])
+        obs = make_obs(rand_obs(np.random.default_rng(desc["nobs"]), desc["nobs"], 2))
+        a = dict(nobs=obs.num_qubits, oq=list(desc["oq"]), fq=list(desc["fq"]))
+        return a, observe(expand_observables, [obs, oc, fc])
+
+    def emit(self, a, impl):
+        return (a["nobs"], a["oq"], a["fq"], c_out(impl["outcome"]), impl["unchanged"])
+
+    def classes(self, a):
+        out = []
+        if a["nobs"] != len(a["oq"]):
+            out.append("observable_size")
+        if any(k not in a["fq"] for k in a["oq"]):
+            out.append("qubit_missing")
+        return out
+
+    def gen(self, rng, q):
+        for _ in range(q(40)):
+            cls = pick(rng, ["valid", "observable_size", "qubit_missing"])
+            n = int(rng.integers(1, 6))
+            oq = list(range(n))
+            fq = [int(x) for x in rng.permutation(n + int(rng.integers(0, 3)))]
+            nobs = n
+            if cls == "observable_size":
+                nobs = max(1, n + int(pick(rng, [-1, 1, 2])))
+                nobs = nobs + 1 if nobs == n else nobs
+            elif cls == "qubit_missing":
+                fq.remove(int(rng.integers(0, n)))
+            yield cls, dict(nobs=nobs, oq=oq, fq=fq)
+
+
+@kind("simulate")
+class KSimulate:
+    checker = "chk_simulate"
+
+    def build(self, desc):
+        qc = QuantumCircuit(desc["nq"], desc["nc"])
+        for it in desc["items"]:
+            k = it[0]
+            if k == "g1":
+                qc.append(G1[it[1]](), [it[2]])
+            elif k == "cx":
+                qc.cx(it[1], it[2])
+            elif k == "measure":
+                qc.measure(it[1], it[2])
+            elif k == "reset":
+                qc.reset(it[1])
+            elif k == "cond":
+                g = XGate().to_mutable()
+                g.condition = (qc.clbits[it[2]], 1)
+                qc.append(g, [it[1]])
+            elif k == "clop":
+                qc.append(Instruction("clop", 1, 1, []), [it[1]], [it[2]])
+        return qc
+
+    def run(self, desc):
+        qc = self.build(desc)
+        a = dict(insts=[[bool(i.operation.condition_bits), i.operation.name in ("measure", "reset"), len(i.clbits)] for i in qc.data])
+        return a, observe(simulate_statevector_outcomes, [qc])
+
+    def emit(self, a, impl):
+        l = [Raw(f"(mkSim {coq(c)} {coq(m)} {n})") for c, m, n in a["insts"]]
+        return (l, c_out(impl["outcome"]), impl["unchanged"])
+
+    def classes(self, a):
+        out = []
+        if any(c for c, _, _ in a["insts"]):
+            out.append("conditioned")
+        if any((not m) and n != 0 for _, m, n in a["insts"]):
+            out.append("classical_bit_on_gate")
+        return out
+
+    def gen(self, rng, q):
+        for _ in range(q(40)):
+            cls = pick(rng, ["valid", "conditioned", "classical_bit_on_gate"])
+            nq, nc = int(rng.integers(1, 4)), int(rng.integers(1, 3))
+            items = []
+            for _k in range(int(rng.integers(1, 6))):
+                a = int(rng.integers(0, nq))
+                items.append(pick(rng, [["g1", "h", a], ["g1", "x", a], ["measure", a, int(rng.integers(0, nc))], ["reset", a]] +
+                                  ([["cx", a, (a + 1) % nq]] if nq > 1 else [])))
+            if cls != "valid":
+                it = ["cond" if cls == "conditioned" else "clop", int(rng.integers(0, nq)), int(rng.integers(0, nc))]
+                items, _ = insert_random(rng, items, it)
+            yield cls, dict(nq=nq, nc=nc, items=items)
+
+
+def letters_of(label):
+    return ["IXYZ".index(ch) for ch in reversed(label)]
+
+
+@kind("mgo")
+class KMgo:
+    checker = "chk_mgo"
+
+    def run(self, desc):
+        obs = [Pauli(o) if p else o for p, o in desc["obs"]]
+        if desc["plist"]:
+            obs = PauliList(obs)
+        a = dict(obs=[letters_of(o) if p else None for p, o in desc["obs"]], nq=desc["nq"])
+        return a, observe(most_general_observable, [obs], dict(num_qubits=desc["nq"]))
+
+    def emit(self, a, impl):
+        l = [Raw("None") if o is None else Raw(f"(Some {coq(o)})") for o in a["obs"]]
+        return (l, c_optn(a["nq"]), c_out(impl["outcome"]), impl["unchanged"])
+
+    def classes(self, a):
+        obs = a["obs"]
+        if not obs:
+            return ["empty"]
+        out = []
+        if any(o is None for o in obs):
+            out.append("not_a_pauli")
+        nq = a["nq"] if a["nq"] is not None else (len(obs[0]) if obs[0] is not None else None)
+        if nq is not None and any(o is not None and len(o) != nq for o in obs):
+            out.append("observable_size")
+        if nq is not None and not out:
+            for i in range(nq):
+                if len({o[i] for o in obs if o[i] != 0}) > 1:
+                    out.append("not_commuting")
+                    break
+        return out
+
+    def gen(self, rng, q):
+        for _ in range(q(50)):
+            cls = pick(rng, ["valid", "valid", "empty", "not_a_pauli", "observable_size", "not_commuting"])
+            n = int(rng.integers(1, 5))
+            gen_ = [int(rng.integers(0, 4)) for _ in range(n)]
+            k = int(rng.integers(1, 5))
+            obs = []
+            for _k in range(k):
+                s = [g if rng.integers(0, 2) else 0 for g in gen_]
+                obs.append([True, "".join("IXYZ"[x] for x in reversed(s))])
+            nq, plist = (n if rng.integers(0, 2) else None), bool(rng.integers(0, 2))
+            j = int(rng.integers(0, k))
+            if cls == "empty":
+                obs, plist = [], False
+            elif cls == "not_a_pauli":
+                obs[j][0], plist = False, False
+            elif cls == "observable_size":
+                obs[j][1] = obs[j][1] + "I" if rng.integers(0, 2) or n == 1 else obs[j][1][1:]
+                plist = False
+                if j == 0:
+                    nq = n
+            elif cls == "not_commuting":
+                i = int(rng.integers(0, n))
+                a, b = (int(x) + 1 for x in rng.permutation(3)[:2])
+                s0, s1 = letters_of(obs[0][1]), letters_of(obs[j][1])
+                s0[i] = a
+                obs[0][1] = "".join("IXYZ"[x] for x in reversed(s0))
+                s1 = letters_of(obs[j][1]) if j else s0
+                s1 = list(s1)
+                s1[i] = b
+                obs.append([True, "".join("IXYZ"[x] for x in reversed(s1))])
+            yield cls, dict(obs=obs, nq=nq, plist=plist)
+
+
+@kind("cog")
+class KCog:
+    checker = "chk_cog"
+
+    def run(self, desc):
+        ps = list(make_obs(desc["obs"], aslist=True))
+        gen_ = Pauli(desc["general"])
+        return dict(phases=[int(p.phase) for p in ps]), observe(CommutingObservableGroup, [gen_, ps])
+
+    def emit(self, a, impl):
+        return (a["phases"], c_out(impl["outcome"]), impl["unchanged"])
+
+    def classes(self, a):
+        return ["observable_phase"] if any(p != 0 for p in a["phases"]) else []
+
+    def gen(self, rng, q):
+        for _ in range(q(24)):
+            n = int(rng.integers(1, 4))
+            k = int(rng.integers(1, 4))
+            obs = [[0, "".join(pick(rng, ["I", "Z"]) for _ in range(n))] for _ in range(k)]
+            bad = bool(rng.integers(0, 2))
+            if bad:
+                obs[int(rng.integers(0, k))][0] = int(rng.integers(1, 4))
+            yield ("observable_phase" if bad else "valid"), dict(obs=obs, general="Z" * n)
+
+
+# --------------------------------------------------------------------------------------
+# driver interface: generate / judge / rerun / witness
+# --------------------------------------------------------------------------------------
+ORDER = ["decompose", "pcq", "cut_gates", "partition_problem", "generate", "reconstruct", "find_cuts", "separate",
+         "from_instruction", "theta", "weights", "device", "settings", "qpdbasis", "set_coeffs", "set_basis_id", "q1gate",
+         "q2gate", "expand", "simulate", "mgo", "cog"]
+CURRENT = {"decompose": "chk_dq_current", "pcq": "chk_pcq_current", "cut_gates": "chk_cut_gates_current"}
+
+
+def make_case(K, cls, desc):
+    a, impl = K.run(desc)
+    return dict(kind=K.name, cls=cls, desc=desc, abs=a, impl=impl)
+
+
+def generate(rng, tier, outdir):
+    np.random.seed(int(rng.integers(0, 2**31 - 1)))      # generate_cutting_experiments samples from the global state
+    w = CaseWriter(outdir, IMPORTS)
+    mult = 1 if tier == "quick" else 12
+    q = lambda n: n * mult  # noqa: E731
+    known = known_ids()
+    for name in ORDER:
+        K = KINDS[name]
+        for cls, desc in K.gen(rng, q):
+            case = make_case(K, cls, desc)
+            a, impl = case["abs"], case["impl"]
+            docs = K.classes(a)
+            group, checker = name, K.checker
+            fid = getattr(K, "finding", None)
+            if fid in known and a.get("inplace"):
+                # listed as a known finding: compare quietly with the model of the CURRENT (unrepaired) loop
+                group, checker = f"{name}_current_{fid}", CURRENT[name]
+                w.count("known_finding_routed", fid)
+            w.add(group, checker, K.emit(a, impl), case, nontrivial=bool(docs) or impl["outcome"] == "ok")
+            w.count(f"{name}.class", cls)
+            w.count(f"{name}.outcome", impl["outcome"])
+            for d in docs:
+                w.count(f"{name}.documented_class_present", d)
+            if docs and not impl["unchanged"]:
+                w.count("refusal_with_modified_argument", name)
+            # the generator's intention and the independent classification must agree
+            w.contract("generator_class_is_documented_class",
+                       (cls.startswith("valid") or cls.startswith("undoc")) == (not docs))
+    return w.finish(
+        rule="per entry point: random otherwise-valid inputs (circuits on 1-5 qubits, 1-3 partition labels from a pool of hashables, "
+             "1-4 observables, random budgets/limits incl. NaN and +-inf) with ONE offending element of a documented class at a random "
+             "position, plus valid controls and a few undocumented neighbours (IndexError, non-dict circuits, NaN width). The real "
+             "function is called with deep before/after snapshots of every argument. distinct = distinct Coq case literal; "
+             "non-trivial = a documented class is present or the call returned a value")
+
+
+def judge(case):
+    K = KINDS[case["kind"]]
+    docs = K.classes(case["abs"])
+    impl = case["impl"]
+    if not docs:
+        return dict(violates=False, detail=f"not a documented invalid input (class {case['cls']}); property silent; observed {impl['outcome']}")
+    bad = []
+    if impl["outcome"] != "refused":
+        bad.append(f"documented invalid input ({', '.join(docs)}) was answered with {impl['outcome']} ({impl.get('detail')}) instead of ValueError")
+    if not impl["unchanged"]:
+        bad.append(f"documented invalid input ({', '.join(docs)}): ValueError raised but an argument was modified: {impl.get('changed')}")
+    return dict(violates=bool(bad), detail="; ".join(bad) or f"refused with ValueError, arguments unchanged ({', '.join(docs)})")
+
+
+def rerun(case):
+    K = KINDS[case["kind"]]
+    a, impl = K.run(case["desc"])
+    case["abs"], case["impl"] = a, impl
+    return case
+
+
+WITNESS = {
+    # decompose_qpd_instructions(qc, [[0],[1]], [0, 9], inplace=True)
+    "F7": dict(kind="decompose", cls="map_index_range",
+               desc=dict(nq=3, items=[["q2", 0, None, [0, 1]], ["q2", 0, None, [1, 2]]], ids=[[0], [1]], maps=[0, 9], inplace=True)),
+    # partition_circuit_qubits(cx(0,1); ccx(0,1,2), "ABC", inplace=True)
+    "F12": dict(kind="pcq", cls="wide_gate",
+                desc=dict(nq=3, items=[["g2", "cx", [0, 1]], ["g3", "ccx", [0, 1, 2]]],
+                          labels=[["str", "A"], ["str", "B"], ["str", "C"]], inplace=True)),
+    # cut_gates(cx(0,1); rzz(Parameter)(1,2), [0, 1], inplace=True)
+    "F13": dict(kind="cut_gates", cls="unbound",
+                desc=dict(nq=3, items=[["g2", "cx", [0, 1]], ["p2", "rzz", None, [1, 2]]], ids=[0, 1], clbits=None, inplace=True)),
+}
+
+
+def witness(name):
+    w = WITNESS[name]
+    case = rerun(dict(kind=w["kind"], cls=w["cls"], desc=json.loads(json.dumps(w["desc"]))))
+    v = judge(case)
+    return dict(fails=bool(v["violates"]), detail=v["detail"], canonical_input=w["desc"])
